@@ -129,6 +129,8 @@ func (r *run) webPart(grid []credKind) error {
 				last   bool
 				status int
 				err    string
+
+				routerMiss bool
 			}
 			var items, lastItems []*item
 			n := 0
@@ -165,8 +167,10 @@ func (r *run) webPart(grid []credKind) error {
 					it.err = err.Error()
 					return
 				}
-				_, _ = io.Copy(io.Discard, resp.Body)
+				body, _ := io.ReadAll(io.LimitReader(resp.Body, 4096))
 				it.status = resp.StatusCode
+				// gorilla's own 404 (no route) as opposed to a 404 answered by a handler that ran
+				it.routerMiss = resp.StatusCode == 404 && string(body) == "404 page not found\n"
 			}
 			parallel(len(items), 32, func(i int) { do(items[i]) })
 			// the authorised stop request: only the first one can be answered, the service goes down with it
@@ -182,7 +186,7 @@ func (r *run) webPart(grid []credKind) error {
 				}
 				public := it.rq.path == "/healthz" || strings.HasPrefix(it.rq.path, "/debug/pprof/")
 				if (variant.user != "" || variant.pass != "") && it.rq.auth != right && !public &&
-					it.status != 401 && it.status != 404 && it.status != 405 {
+					it.status != 401 && !it.routerMiss && it.status != 405 {
 					r.fail("served-without-credentials:"+name,
 						fmt.Sprintf("%s configured with %q:%q answered %d to %s %s carrying Authorization %q", name, variant.user, variant.pass, it.status, it.rq.method, it.rq.path, it.rq.auth),
 						it.rq.String())
